@@ -3,15 +3,15 @@ package main
 import (
 	"bufio"
 	"bytes"
-	"os/exec"
-	"runtime/debug"
 	"crypto/sha1"
 	"encoding/json"
 	"errors"
 	"fmt"
 	"os"
+	"os/exec"
 	"path/filepath"
 	"reflect"
+	"runtime/debug"
 	"sort"
 	"strings"
 	"time"
@@ -41,27 +41,27 @@ func (r *rng) Intn(n int) int {
 	}
 	return int(r.next() % uint64(n))
 }
-func (r *rng) Bool() bool          { return r.next()&1 == 1 }
+func (r *rng) Bool() bool              { return r.next()&1 == 1 }
 func (r *rng) Pick(xs []string) string { return xs[r.Intn(len(xs))] }
 
 // ---------- cases ----------
 
 // Case is one evaluation: a query on a data value, with what the property's own oracle expects.
 type Case struct {
-	Q   string // query text
-	D   *TV    // data
-	XK  string // expectation kind: "" none | "logical" | "exact" | "class" (ok/knf/err) | "bool"
-	X   string // expected value in that form
-	Cls string // class label for the coverage histogram
-	InDomain bool // inside the property's quantifier (model/impl differences are enforced only here)
-	Note string
+	Q        string // query text
+	D        *TV    // data
+	XK       string // expectation kind: "" none | "logical" | "exact" | "class" (ok/knf/err) | "bool"
+	X        string // expected value in that form
+	Cls      string // class label for the coverage histogram
+	InDomain bool   // inside the property's quantifier (model/impl differences are enforced only here)
+	Note     string
 }
 
 type Outcome struct {
 	Class   string // ok | KNF | ERR | PANIC | TIMEOUT | PARSE-ERR | NEITHER | PARSE-PANIC
 	Exact   string // canonV of the result (ok only)
 	Logical string
-	ErrData bool   // the ok result is (or contains at top level) a Go error value
+	ErrData bool // the ok result is (or contains at top level) a Go error value
 	Msg     string
 }
 
@@ -151,26 +151,26 @@ type Violation struct {
 }
 
 type Ctx struct {
-	Prop     string
-	Dir      string
-	Tier     string
-	Seed     uint64
-	R        *rng
-	cases    *bufio.Writer
-	impl     *bufio.Writer
-	cur      *os.File
-	N        int
-	InDom    int
-	Hist     map[string]int
-	OutHist  map[string]int
-	Distinct map[string]struct{}
-	Viol     []Violation
-	Samples  []any
-	Extra    map[string]any
-	files    []*os.File
+	Prop       string
+	Dir        string
+	Tier       string
+	Seed       uint64
+	R          *rng
+	cases      *bufio.Writer
+	impl       *bufio.Writer
+	cur        *os.File
+	N          int
+	InDom      int
+	Hist       map[string]int
+	OutHist    map[string]int
+	Distinct   map[string]struct{}
+	Viol       []Violation
+	Samples    []any
+	Extra      map[string]any
+	files      []*os.File
 	Exhaustive bool
-	Rule     string
-	violCount map[string]int
+	Rule       string
+	violCount  map[string]int
 }
 
 func newCtx(prop, dir, tier string, seed uint64) *Ctx {
@@ -547,5 +547,55 @@ func (c *Ctx) Record(line []byte, impl, cls string, inDomain bool, distinctKey, 
 	c.Distinct[distinctKey+"|"+outClass] = struct{}{}
 	if sample != nil && len(c.Samples) < 12 && (c.N%97 == 1 || len(c.Samples) < 3) {
 		c.Samples = append(c.Samples, sample)
+	}
+}
+
+// DoR is Do plus, for a sample of the cases, the reuse check: a parsed operation that is kept must answer on other data
+// exactly like a freshly parsed copy of the query.
+func (c *Ctx) DoR(cs Case) Outcome {
+	o := c.Do(cs)
+	if c.N%5 == 0 && o.Class != "PARSE-ERR" && o.Class != "PARSE-PANIC" && o.Class != "NEITHER" {
+		c.ReuseCheck(cs.Q, cs.D, cs.Cls)
+	}
+	return o
+}
+
+// ReuseCheck evaluates one parsed operation on the document, then on a document of the same shape with other leaf
+// values (a separate value), then on the original document after it was changed in place (same identity, new content),
+// and compares each answer with that of a freshly parsed copy of the query. State remembered inside an operation -
+// an argument value, a short-circuit position, a result keyed by the identity of the data - shows as a difference.
+func (c *Ctx) ReuseCheck(q string, d *TV, cls string) {
+	op, err := mpath.ParseString(q)
+	if err != nil || op == nil {
+		return
+	}
+	fresh := func(data any) string {
+		op2, err := mpath.ParseString(q)
+		if err != nil || op2 == nil {
+			return "PARSE-ERR"
+		}
+		return evalOp(op2, data).Line()
+	}
+	report := func(why string, data *TV, want, got string) {
+		c.addViolation(Violation{Kind: "stale-state", Query: q, QueryHex: hx(q), Data: data, Expected: trunc(want, 300), Got: trunc(got, 300), Why: why, Cls: cls,
+			Key: "stale-state:" + lastFunc(q)})
+	}
+	data := buildAny(d)
+	evalOp(op, data)
+	variant := c11Variant(d, c.R)
+	vdata := buildAny(variant)
+	c.Extra["reuse_checks"] = asInt(c.Extra["reuse_checks"]) + 1
+	if want, got := fresh(vdata), evalOp(op, vdata).Line(); want != got {
+		report("the kept operation, reused on a document with other values, answers differently from a freshly parsed copy of the query", variant, want, got)
+		return
+	}
+	if dv, sv := reflect.ValueOf(data), reflect.ValueOf(vdata); dv.Kind() == reflect.Map && sv.Kind() == reflect.Map && dv.Type() == sv.Type() && !dv.IsNil() {
+		evalOp(op, data)
+		for _, k := range sv.MapKeys() {
+			dv.SetMapIndex(k, sv.MapIndex(k))
+		}
+		if want, got := fresh(data), evalOp(op, data).Line(); want != got {
+			report("after the document was changed in place the kept operation answers differently from a freshly parsed copy of the query", variant, want, got)
+		}
 	}
 }
